@@ -906,6 +906,9 @@ func isTdxTcbSvnHigherOrEqual(teeTcbSvn []byte, tdxTcbcomponents []pcs.TcbCompon
 	if len(teeTcbSvn) != len(tdxTcbcomponents) {
 		return false
 	}
+	if len(teeTcbSvn) < 2 {
+		return false
+	}
 	start := 0
 	if teeTcbSvn[1] > 0 {
 		start = 2
